@@ -511,6 +511,29 @@ def check_instance(model, st, snap, msgs):
     return claims
 
 
+def model_expects_instance(model, st):
+    """True when the model can compute every glyph of the instance (compatible
+    masters everywhere) and every rule swap has both glyphs - then generating the
+    instance has no legitimate reason to fail."""
+    names = set(model.layers[model.default_idx])
+    try:
+        for name in sorted(names):
+            g, _ = model.glyph(name, st["loc"])
+            if g is None:
+                return False
+        for a, b in model.swaps(st["loc"], names):
+            if a != b and b not in names:
+                return False
+        kern, _ = model.kerning_expect(st["loc"])
+        if kern is None:
+            return False
+    except AssertionError:
+        raise
+    except Exception:  # noqa: BLE001
+        return False
+    return True
+
+
 def execute(scn, scratch_root=None):
     executor.quiet()
     sysm = Sys(scn, scratch_root)
@@ -557,6 +580,10 @@ def execute(scn, scratch_root=None):
                         d = diff(snap2, snap, "result", limit=6)
                         if d:
                             msgs.append("cache: differs from a fresh instantiator's answer: %s" % "; ".join(d))
+                    # a request the model can fully answer must not fail
+                    if oc != "ok" and st["op"] == "instance" and model_expects_instance(model, st):
+                        msgs.append("failure: request raised %s although every glyph of the default source has "
+                                    "structurally compatible masters (the model yields an instance)" % oc[4:])
                     # oracle 1/3: the stateless model
                     if oc == "ok":
                         if st["op"] == "instance":
